@@ -562,4 +562,443 @@ theorem ior_failure_prefix (s s' : KS α κ) (xs : List α) (e : Err) (h : addAl
       refine ⟨y :: pre, x, post, by rw [hxs]; rfl, ?_, hx⟩
       unfold addAllP; simp only [ha]; exact hpre
 
+
+/-! ## Set algebra on keys
+
+General forms first (no hypothesis on the operand: exactly what the code
+computes), then the key-level set algebra for operands that are sets of items:
+`PlainFor` excludes the documented key/item ambiguity, `AgreeE`/`AgreeS` say the
+operands hold equal items under common keys ("items are identified by key").
+`keysOf c xs k` : `k` is the key of an element of `xs`. -/
+
+/-- `s | other` (also `other | s` for a built-in set / list): the keys of the
+result are the union of the keys; items of `other` win on common keys
+(`or_items`). -/
+theorem or_keys {s r : KS α κ} {o : Operand α κ} (hwf : WF s) (h : orOp s o = .ok r) (k : κ) :
+    k ∈ r.keys ↔ k ∈ s.keys ∨ keysOf s.cfg o.iter k := by
+  unfold orOp fromIterable at h
+  rw [mem_keys_iff_hasKey, filterAdd_keys _ _ h k, mem_keys_iff_hasKey]
+  simp only [KS.emptyLike, hasKey_nil, Bool.false_eq_true, false_or, true_and]
+  constructor
+  · rintro ⟨x, hx, hk⟩
+    rcases List.mem_append.1 hx with hx | hx
+    · exact Or.inl ((keysOf_iter hwf k).1 ⟨x, hx, hk⟩)
+    · exact Or.inr ⟨x, hx, hk⟩
+  · rintro (hk | ⟨x, hx, hk⟩)
+    · obtain ⟨x, hx, hk⟩ := (keysOf_iter hwf k).2 hk
+      exact ⟨x, List.mem_append.2 (Or.inl hx), hk⟩
+    · exact ⟨x, List.mem_append.2 (Or.inr hx), hk⟩
+
+/-- every item of `s | other` is an item of `s` or an element of `other` (stored under its key) -/
+theorem or_items {s r : KS α κ} {o : Operand α κ} (hwf : WF s) (h : orOp s o = .ok r) (k : κ) (v : α)
+    (hv : abs r k = some v) : abs s k = some v ∨ (v ∈ o.iter ∧ s.cfg.keyOf v = .ok k) := by
+  unfold orOp fromIterable at h
+  rcases filterAdd_items _ _ h k v hv with h1 | ⟨h1, _, h3⟩
+  · simp [KS.emptyLike, dictGet_nil] at h1
+  · rcases List.mem_append.1 h1 with hx | hx
+    · obtain ⟨k', hm⟩ := mem_iter_iff.1 hx
+      have := hwf.keyed k' v hm
+      simp only [KS.emptyLike] at h3
+      rw [h3] at this; cases this
+      exact Or.inl ((dictGet_eq_some_iff _ hwf.nodup k v).2 hm)
+    · exact Or.inr ⟨hx, h3⟩
+
+/-- without `enforce`, `|` succeeds whenever every element of `other` has a key and (typed sets) the right type -/
+theorem or_succeeds (s : KS α κ) (o : Operand α κ) (hi : Inv s) (he : s.enforce = false)
+    (hv : ∀ x ∈ o.iter, ∃ k, validate s.cfg x = .ok k) : ∃ r, orOp s o = .ok r := by
+  unfold orOp fromIterable
+  apply filterAdd_succeeds
+  · intro x _; exact ⟨true, rfl⟩
+  · intro x hx _
+    rcases List.mem_append.1 hx with hx | hx
+    · obtain ⟨k, hm⟩ := mem_iter_iff.1 hx
+      exact ⟨k, validate_stored hi hm⟩
+    · exact hv x hx
+  · exact he
+
+/-- `s & other`, general form: the elements of `other` that are members of `s`. -/
+theorem and_keys_general {s r : KS α κ} {o : Operand α κ} (h : andOp s o = .ok r) (k : κ) :
+    k ∈ r.keys ↔ ∃ x ∈ o.iter, contains s x = .ok true ∧ s.cfg.keyOf x = .ok k := by
+  unfold andOp at h
+  rw [mem_keys_iff_hasKey, filterAdd_keys _ _ h k]
+  simp [KS.emptyLike, hasKey_nil]
+
+/-- **`&` is intersection on keys** for an operand that is a set of items. -/
+theorem and_keys {s r : KS α κ} {o : Operand α κ} (hp : PlainFor s o.iter) (ha : AgreeE s o.iter)
+    (h : andOp s o = .ok r) (k : κ) : k ∈ r.keys ↔ k ∈ s.keys ∧ keysOf s.cfg o.iter k := by
+  rw [and_keys_general h k, mem_keys_iff_hasKey]
+  constructor
+  · rintro ⟨x, hx, hc, hk⟩
+    have := contains_plain (hp.mono (fun y hy => by rw [List.mem_singleton.1 hy]; exact hx))
+      (ha.mono (fun y hy => by rw [List.mem_singleton.1 hy]; exact hx)) hk
+    rw [this] at hc
+    exact ⟨Except.ok.inj hc, x, hx, hk⟩
+  · rintro ⟨hh, x, hx, hk⟩
+    refine ⟨x, hx, ?_, hk⟩
+    rw [contains_plain (hp.mono (fun y hy => by rw [List.mem_singleton.1 hy]; exact hx))
+      (ha.mono (fun y hy => by rw [List.mem_singleton.1 hy]; exact hx)) hk, hh]
+
+/-- `s - other` for a `Set` operand, general form: the items of `s` that are not `in other`. -/
+theorem sub_keys_general {s r : KS α κ} {o : Operand α κ} (hset : o.isSet = true) (hwf : WF s)
+    (h : subOp s o = .ok r) (k : κ) :
+    k ∈ r.keys ↔ ∃ v, (k, v) ∈ s.dict ∧ o.contains s.cfg v = .ok false := by
+  unfold subOp toSet at h
+  simp only [hset, if_true] at h
+  rw [mem_keys_iff_hasKey, filterAdd_keys _ _ h k]
+  simp only [KS.emptyLike, hasKey_nil, Bool.false_eq_true, false_or, notM_ok_iff, Bool.not_true]
+  constructor
+  · rintro ⟨x, hx, hc, hk⟩
+    obtain ⟨k', hm⟩ := mem_iter_iff.1 hx
+    have := hwf.keyed k' x hm
+    rw [hk] at this; cases this
+    exact ⟨x, hm, hc⟩
+  · rintro ⟨v, hm, hc⟩
+    exact ⟨v, mem_iter_iff.2 ⟨k, hm⟩, hc, hwf.keyed k v hm⟩
+
+/-- **`-` is difference on keys** against a KeyedSet that identifies items the
+same way; it never fails. -/
+theorem sub_keys {s t : KS α κ} (hi : Inv s) (hkf : t.cfg.keyOf = s.cfg.keyOf)
+    (hp : PlainFor t s.iter) (ha : AgreeE t s.iter) :
+    ∃ r, subOp s (.ks t) = .ok r ∧ ∀ k, k ∈ r.keys ↔ k ∈ s.keys ∧ k ∉ t.keys := by
+  have hc : ∀ k v, (k, v) ∈ s.dict → contains t v = .ok (hasKey t.dict k) := by
+    intro k v hm
+    have hv : v ∈ s.iter := mem_iter_iff.2 ⟨k, hm⟩
+    exact contains_plain (hp.mono (fun y hy => by rw [List.mem_singleton.1 hy]; exact hv))
+      (ha.mono (fun y hy => by rw [List.mem_singleton.1 hy]; exact hv))
+      (by rw [hkf]; exact hi.wf.keyed k v hm)
+  have hsucc : ∃ r, subOp s (.ks t) = .ok r := by
+    unfold subOp toSet
+    simp only [Operand.isSet, if_true]
+    apply filterAdd_self_succeeds _ hi
+    intro x hx
+    obtain ⟨k, hm⟩ := mem_iter_iff.1 hx
+    exact ⟨!(hasKey t.dict k), by simp [Operand.contains, hc k x hm, C14.notM]⟩
+  obtain ⟨r, hr⟩ := hsucc
+  refine ⟨r, hr, fun k => ?_⟩
+  rw [sub_keys_general rfl hi.wf hr k, mem_keys_iff_hasKey, mem_keys_iff_hasKey]
+  constructor
+  · rintro ⟨v, hm, hcv⟩
+    simp only [Operand.contains, hc k v hm, Except.ok.injEq] at hcv
+    exact ⟨(hasKey_iff _ _).2 ⟨v, hm⟩, by simp [hcv]⟩
+  · rintro ⟨hh, hn⟩
+    obtain ⟨v, hm⟩ := (hasKey_iff _ _).1 hh
+    refine ⟨v, hm, ?_⟩
+    simp only [Operand.contains, hc k v hm, Except.ok.injEq]
+    simpa using hn
+
+/-- FULL statement for a built-in set operand (does NOT hold for the code as it is:
+`sub_pyset_keys_full_fails`): `s - {…}` is the difference on keys for every
+well-formed `s` and every agreeing built-in set. -/
+def sub_pyset_keys_full (α κ : Type) [DecidableEq α] [DecidableEq κ] : Prop :=
+  ∀ (s : KS α κ) (xs : List α), Inv s → AgreeS s xs →
+    ∃ r, subOp s (.pyset xs) = .ok r ∧ ∀ k, k ∈ r.keys ↔ k ∈ s.keys ∧ ¬ keysOf s.cfg xs k
+
+/-- **`-` against a built-in set** is difference on keys *provided every item of
+the receiver is hashable* (known finding `unhashable_items_vs_builtin_set`: with
+an unhashable item `item in <set>` raises `TypeError`). -/
+theorem sub_pyset_keys_partial {s : KS α κ} {xs : List α} (hi : Inv s) (ha : AgreeS s xs)
+    (hh : ∀ v ∈ s.iter, s.cfg.hashable v = true) :
+    ∃ r, subOp s (.pyset xs) = .ok r ∧ ∀ k, k ∈ r.keys ↔ k ∈ s.keys ∧ ¬ keysOf s.cfg xs k := by
+  have hsucc : ∃ r, subOp s (.pyset xs) = .ok r := by
+    unfold subOp toSet
+    simp only [Operand.isSet, if_true]
+    apply filterAdd_self_succeeds _ hi
+    intro x hx
+    exact ⟨!(xs.contains x), by simp [Operand.contains, hh x hx, C14.notM]⟩
+  obtain ⟨r, hr⟩ := hsucc
+  refine ⟨r, hr, fun k => ?_⟩
+  rw [sub_keys_general rfl hi.wf hr k, mem_keys_iff_hasKey]
+  constructor
+  · rintro ⟨v, hm, hcv⟩
+    have hv : v ∈ s.iter := mem_iter_iff.2 ⟨k, hm⟩
+    simp only [Operand.contains, hh v hv, if_true, Except.ok.injEq] at hcv
+    refine ⟨(hasKey_iff _ _).2 ⟨v, hm⟩, ?_⟩
+    rintro ⟨x, hx, hk⟩
+    have := ha x hx k v hk ((dictGet_eq_some_iff _ hi.wf.nodup k v).2 hm)
+    subst this
+    simp [hx] at hcv
+  · rintro ⟨hk, hn⟩
+    obtain ⟨v, hm⟩ := (hasKey_iff _ _).1 hk
+    have hv : v ∈ s.iter := mem_iter_iff.2 ⟨k, hm⟩
+    refine ⟨v, hm, ?_⟩
+    simp only [Operand.contains, hh v hv, if_true, Except.ok.injEq]
+    cases hc : xs.contains v with
+    | false => rfl
+    | true =>
+      exfalso; apply hn
+      exact ⟨v, by simpa using hc, hi.wf.keyed k v hm⟩
+
+/-- **`<=` is inclusion of the key sets** against a KeyedSet that identifies items the same way. -/
+theorem le_keys {s t : KS α κ} (hws : WF s) (hwt : WF t) (hkf : t.cfg.keyOf = s.cfg.keyOf)
+    (hp : PlainFor t s.iter) (ha : AgreeE t s.iter) :
+    ∃ b, leOp s (.ks t) = .ok b ∧ (b = true ↔ ∀ k, k ∈ s.keys → k ∈ t.keys) := by
+  have hc : ∀ v ∈ s.iter, Operand.contains s.cfg (.ks t) v
+      = .ok (match s.cfg.keyOf v with | .ok k => hasKey t.dict k | .error _ => false) := by
+    intro v hv
+    obtain ⟨k, hm⟩ := mem_iter_iff.1 hv
+    have hk := hws.keyed k v hm
+    simp only [Operand.contains, hk]
+    exact contains_plain (hp.mono (fun y hy => by rw [List.mem_singleton.1 hy]; exact hv))
+      (ha.mono (fun y hy => by rw [List.mem_singleton.1 hy]; exact hv)) (by rw [hkf]; exact hk)
+  unfold leOp
+  simp only [Operand.isSet, Bool.not_true, Bool.false_eq_true, if_false]
+  by_cases hlen : s.len > (Operand.ks t : Operand α κ).len
+  · simp only [hlen, if_true]
+    refine ⟨false, rfl, ?_⟩
+    simp only [Bool.false_eq_true, false_iff]
+    intro hsub
+    have : s.keys.length ≤ t.keys.length := hws.nodup.length_le_of_subset (fun k hk => hsub k hk)
+    simp [KS.len, Operand.len, Operand.iter, KS.iter, KS.keys] at hlen this
+    omega
+  · simp only [hlen, if_false]
+    rw [allM_total _ _ _ hc]
+    refine ⟨_, rfl, ?_⟩
+    rw [List.all_eq_true]
+    constructor
+    · intro hall k hk
+      obtain ⟨v, hm⟩ := (hasKey_iff _ _).1 ((mem_keys_iff_hasKey s k).1 hk)
+      have := hall v (mem_iter_iff.2 ⟨k, hm⟩)
+      rw [hws.keyed k v hm] at this
+      exact (mem_keys_iff_hasKey t k).2 this
+    · intro hsub v hv
+      obtain ⟨k, hm⟩ := mem_iter_iff.1 hv
+      rw [hws.keyed k v hm]
+      exact (mem_keys_iff_hasKey t k).1 (hsub k ((mem_keys_iff_hasKey s k).2 ((hasKey_iff _ _).2 ⟨v, hm⟩)))
+
+/-- **`==` between KeyedSets is equality of the key → item maps.** -/
+theorem eq_keys {s t : KS α κ} (hws : WF s) (hwt : WF t) :
+    eqOp s (.ks t) = true ↔ abs s = abs t := by
+  unfold eqOp dictEq
+  simp only [Bool.and_eq_true, beq_iff_eq, List.all_eq_true]
+  constructor
+  · rintro ⟨hlen, hall⟩
+    have hsub : ∀ k ∈ s.keys, k ∈ t.keys := by
+      intro k hk
+      obtain ⟨v, hm⟩ := (hasKey_iff _ _).1 ((mem_keys_iff_hasKey s k).1 hk)
+      exact (mem_keys_iff_hasKey t k).2 (hasKey_of_dictGet (hall (k, v) hm))
+    have hsup := subset_of_length_eq hws.nodup hsub (by simpa [KS.keys] using hlen)
+    funext k
+    unfold abs
+    cases hs : dictGet s.dict k with
+    | some v => exact (hall (k, v) (mem_of_dictGet hs)).symm
+    | none =>
+      cases ht : dictGet t.dict k with
+      | none => rfl
+      | some w =>
+        have := (hasKey_iff_mem_keys _ _).2 (hsup k ((mem_keys_iff_hasKey t k).2 (hasKey_of_dictGet ht)))
+        rw [← dictGet_isSome, hs] at this
+        cases this
+  · intro he
+    have hget : ∀ k, dictGet s.dict k = dictGet t.dict k := fun k => congrFun he k
+    have hk : ∀ k, k ∈ s.keys ↔ k ∈ t.keys := by
+      intro k
+      rw [mem_keys_iff_hasKey, mem_keys_iff_hasKey, ← dictGet_isSome, ← dictGet_isSome, hget k]
+    constructor
+    · have := ((List.perm_ext_iff_of_nodup hws.nodup hwt.nodup).2 hk).length_eq
+      simpa [KS.keys] using this
+    · intro p hp
+      rw [← hget p.1]
+      exact (dictGet_eq_some_iff _ hws.nodup p.1 p.2).2 hp
+
+/-- `==` against a built-in set: equal exactly when every item is hashable and
+both hold the same items (so never equal to a set when an item is unhashable). -/
+theorem eq_pyset (s : KS α κ) (xs : List α) :
+    eqOp s (.pyset xs) = true ↔
+      (∀ v ∈ s.iter, s.cfg.hashable v = true) ∧ (∀ v, v ∈ s.iter ↔ v ∈ xs) := by
+  unfold eqOp
+  simp only [Bool.and_eq_true, List.all_eq_true, List.contains_iff_mem]
+  constructor
+  · rintro ⟨⟨h1, h2⟩, h3⟩; exact ⟨h1, fun v => ⟨h2 v, h3 v⟩⟩
+  · rintro ⟨h1, h2⟩; exact ⟨⟨h1, fun v hv => (h2 v).1 hv⟩, fun v hv => (h2 v).2 hv⟩
+
+/-- **`|=`**: when it completes, the keys are the union (the state is the same as
+that of `s | other`, built in place). -/
+theorem ior_keys {s s' : KS α κ} {o : Operand α κ} (hwf : WF s) (h : iorOp s o = (s', none)) (k : κ) :
+    (k ∈ s'.keys ↔ k ∈ s.keys ∨ keysOf s.cfg o.iter k) ∧ s'.cfg = s.cfg ∧ s'.enforce = s.enforce := by
+  unfold iorOp at h
+  have hf := (addAllP_none_iff _ _ _).1 h
+  refine ⟨?_, ?_⟩
+  · rw [mem_keys_iff_hasKey, filterAdd_keys _ _ hf k, mem_keys_iff_hasKey]
+    simp [keysOf]
+  · exact sameKind_filterAdd _ _ hf
+
+/-- **`-=`** with an operand that is a set of items: never fails, and the keys
+are the difference. -/
+theorem isub_keys (s : KS α κ) (xs : List α) (hwf : WF s) (hp : PlainFor s xs) (ha : AgreeE s xs)
+    (hkeyed : ∀ x ∈ xs, ∃ k, s.cfg.keyOf x = .ok k) :
+    ∃ s', discardAllP s xs = (s', none) ∧ SameKind s' s ∧ WF s' ∧
+      ∀ k, k ∈ s'.keys ↔ k ∈ s.keys ∧ ¬ keysOf s.cfg xs k := by
+  induction xs generalizing s with
+  | nil =>
+    refine ⟨s, rfl, SameKind.refl _, hwf, fun k => ?_⟩
+    simp [keysOf]
+  | cons x xs ih =>
+    obtain ⟨k0, hk0⟩ := hkeyed x List.mem_cons_self
+    obtain ⟨s1, hd, hkind, hget, hwf1⟩ := discard_plain
+      (hp.mono (fun y hy => by rw [List.mem_singleton.1 hy]; exact List.mem_cons_self))
+      (ha.mono (fun y hy => by rw [List.mem_singleton.1 hy]; exact List.mem_cons_self)) hk0
+    have hhas : ∀ j, hasKey s1.dict j = true ↔ hasKey s.dict j = true ∧ j ≠ k0 := by
+      intro j
+      rw [← dictGet_isSome, ← dictGet_isSome, hget j]
+      by_cases hj : j = k0 <;> simp [hj]
+    have hp1 : PlainFor s1 xs := by
+      intro y hy k hak hh
+      rw [hkind.1] at hak ⊢
+      exact hp y (List.mem_cons_of_mem _ hy) k hak ((hhas k).1 hh).1
+    have ha1 : AgreeE s1 xs := by
+      intro he y hy k v hk hv
+      rw [hkind.1] at hk
+      rw [hget k] at hv
+      by_cases hj : k = k0
+      · simp [hj] at hv
+      · simp only [hj, if_false] at hv
+        exact ha (by rw [← hkind.2]; exact he) y (List.mem_cons_of_mem _ hy) k v hk hv
+    obtain ⟨s', hs', hkind', hwf', hkeys⟩ := ih s1 (hwf1 hwf) hp1 ha1
+      (fun y hy => by rw [hkind.1]; exact hkeyed y (List.mem_cons_of_mem _ hy))
+    refine ⟨s', ?_, hkind'.trans hkind, hwf', fun k => ?_⟩
+    · unfold discardAllP; simp only [hd]; exact hs'
+    · rw [hkeys k, mem_keys_iff_hasKey, hhas k, mem_keys_iff_hasKey, hkind.1]
+      constructor
+      · rintro ⟨⟨h1, h2⟩, h3⟩
+        refine ⟨h1, ?_⟩
+        rintro ⟨y, hy, hky⟩
+        rcases List.mem_cons.1 hy with rfl | hy
+        · rw [hk0] at hky; cases hky; exact h2 rfl
+        · exact h3 ⟨y, hy, hky⟩
+      · rintro ⟨h1, h2⟩
+        refine ⟨⟨h1, ?_⟩, ?_⟩
+        · intro e; subst e; exact h2 ⟨x, List.mem_cons_self, hk0⟩
+        · rintro ⟨y, hy, hky⟩; exact h2 ⟨y, List.mem_cons_of_mem _ hy, hky⟩
+
+/-- **`^` is symmetric difference on keys** between KeyedSets that identify items
+the same way. -/
+theorem xor_keys {s t r : KS α κ} (his : Inv s) (hit : Inv t) (hkf : t.cfg.keyOf = s.cfg.keyOf)
+    (hp1 : PlainFor t s.iter) (ha1 : AgreeE t s.iter) (hp2 : PlainFor s t.iter) (ha2 : AgreeE s t.iter)
+    (h : xorOp s (.ks t) = .ok r) (k : κ) :
+    k ∈ r.keys ↔ (k ∈ s.keys ∧ k ∉ t.keys) ∨ (k ∈ t.keys ∧ k ∉ s.keys) := by
+  obtain ⟨a, ha, hka⟩ := sub_keys his hkf hp1 ha1
+  obtain ⟨b, hb, hkb⟩ := sub_keys hit hkf.symm hp2 ha2
+  unfold xorOp toSet at h
+  simp only [Operand.isSet, if_true, ha, hb] at h
+  obtain ⟨hia, hsa⟩ := inv_subOp ha
+  obtain ⟨hib, hsb⟩ := inv_subOp hb
+  rw [or_keys hia.wf h k, hka k]
+  have : keysOf a.cfg (Operand.ks b : Operand α κ).iter k ↔ k ∈ b.keys := by
+    have hcfg : a.cfg.keyOf = b.cfg.keyOf := by rw [hsa.1, hsb.1, hkf]
+    unfold keysOf
+    rw [hcfg]
+    exact (keysOf_iter hib.wf k).trans (mem_keys_iff_hasKey b k).symm
+  rw [this, hkb k]
+
+
+/-- **`<=` against a built-in set** is inclusion of the key sets, again provided
+every item of the receiver is hashable (same known finding as `sub_pyset_keys_partial`). -/
+theorem le_pyset_keys_partial {s : KS α κ} {xs : List α} (hws : WF s) (ha : AgreeS s xs)
+    (hh : ∀ v ∈ s.iter, s.cfg.hashable v = true) :
+    ∃ b, leOp s (.pyset xs) = .ok b ∧ (b = true ↔ ∀ k, k ∈ s.keys → keysOf s.cfg xs k) := by
+  have hc : ∀ v ∈ s.iter, Operand.contains s.cfg (.pyset xs) v = .ok (xs.contains v) := by
+    intro v hv; simp [Operand.contains, hh v hv]
+  have hmem : (∀ k, k ∈ s.keys → keysOf s.cfg xs k) ↔ ∀ v ∈ s.iter, v ∈ xs := by
+    constructor
+    · intro hsub v hv
+      obtain ⟨k, hm⟩ := mem_iter_iff.1 hv
+      obtain ⟨x, hx, hk⟩ := hsub k ((mem_keys_iff_hasKey s k).2 ((hasKey_iff _ _).2 ⟨v, hm⟩))
+      rw [ha x hx k v hk ((dictGet_eq_some_iff _ hws.nodup k v).2 hm)]
+      exact hx
+    · intro hall k hk
+      obtain ⟨v, hm⟩ := (hasKey_iff _ _).1 ((mem_keys_iff_hasKey s k).1 hk)
+      exact ⟨v, hall v (mem_iter_iff.2 ⟨k, hm⟩), hws.keyed k v hm⟩
+  unfold leOp
+  simp only [Operand.isSet, Bool.not_true, Bool.false_eq_true, if_false]
+  by_cases hlen : s.len > (Operand.pyset xs : Operand α κ).len
+  · simp only [hlen, if_true]
+    refine ⟨false, rfl, ?_⟩
+    simp only [Bool.false_eq_true, false_iff]
+    intro hsub
+    have hnd : s.iter.Nodup := (iter_pairwise hws).imp (fun hne e => hne (by rw [e]))
+    have : s.iter.length ≤ xs.length := hnd.length_le_of_subset (fun v hv => hmem.1 hsub v hv)
+    simp [KS.len, Operand.len, Operand.iter, KS.iter] at hlen this
+    omega
+  · simp only [hlen, if_false]
+    rw [allM_total _ _ _ hc]
+    refine ⟨_, rfl, ?_⟩
+    rw [List.all_eq_true, hmem]
+    simp
+
+/-! ## The known finding: built-in set operands and unhashable items -/
+
+/-- an untyped set with one unhashable item (think `KeyedSet([["k0", 1]], key=lambda x: x[0])`) -/
+def witnessCfg : Cfg Nat Nat :=
+  { keyOf := fun x => .ok x, asKey := fun _ => none, hashable := fun _ => false,
+    typed := false, okItem := fun _ => true, okKey := fun _ => true }
+def witness : KS Nat Nat := ⟨witnessCfg, false, [(0, 0)]⟩
+
+/-- `witness - set()` raises `TypeError` (unhashable item asked `in` a built-in set) … -/
+theorem witness_sub_raises :
+    (match subOp witness (.pyset []) with | .error e => some e | .ok _ => none) = some Err.typeError := by
+  decide
+
+/-- … so the full statement does not hold of the code as it is. -/
+theorem sub_pyset_keys_full_fails : ¬ sub_pyset_keys_full Nat Nat := by
+  intro h
+  have hinv : Inv witness :=
+    ⟨⟨by simp [witness], by intro k v hm; simp [witness] at hm; simp [witness, witnessCfg, hm]⟩,
+     by intro ht; simp [witness, witnessCfg] at ht⟩
+  obtain ⟨r, hr, _⟩ := h witness [] hinv (by intro x hx; cases hx)
+  have := witness_sub_raises
+  rw [hr] at this
+  cases this
+
+/-! ## Non-vacuity: concrete states satisfying the hypotheses used above -/
+
+section Examples
+
+/-- items `(key, payload)`, explicit key function, nothing usable directly as a key -/
+def exCfg (typed : Bool) : Cfg (Nat × Nat) Nat :=
+  { keyOf := fun x => .ok x.1, asKey := fun _ => none, hashable := fun _ => true,
+    typed := typed, okItem := fun x => x.2 < 100, okKey := fun k => k < 10 }
+def exS : KS (Nat × Nat) Nat := ⟨exCfg true, true, [(1, (1, 5)), (2, (2, 7))]⟩
+def exT : KS (Nat × Nat) Nat := ⟨exCfg false, false, [(2, (2, 7)), (3, (3, 0))]⟩
+
+example : Inv exS :=
+  ⟨⟨by decide, by intro k v hm; simp [exS] at hm; rcases hm with ⟨rfl, rfl⟩ | ⟨rfl, rfl⟩ <;> rfl⟩,
+   by intro _ k v hm; simp [exS] at hm; rcases hm with ⟨rfl, rfl⟩ | ⟨rfl, rfl⟩ <;> decide⟩
+example : PlainFor exT exS.iter := by intro x _ k hk; simp [exT, exCfg] at hk
+example : AgreeE exS exT.iter := by
+  intro _ x hx k v hk hv
+  simp [exT, KS.iter] at hx
+  rcases hx with rfl | rfl
+  · simp [exS, exCfg] at hk; subst hk; simp [exS, dictGet] at hv; exact hv.symm
+  · simp [exS, exCfg] at hk; subst hk; simp [exS, dictGet] at hv
+example : DenotesM exS (1, 5) 1 := Or.inr ⟨rfl, by decide, fun _ => by decide⟩
+example : Unamb exS (1, 5) := by
+  intro k k' h h'
+  rcases h with ⟨h, _⟩ | ⟨h, _, _⟩ <;> rcases h' with ⟨h', _⟩ | ⟨h', _, _⟩ <;>
+    simp [exS, exCfg] at h h' <;> omega
+-- the operators do something on these states (evaluated by the kernel)
+example : (binOp .or exS (.ks exT)).toOption.map (·.keys) = some [1, 2, 3] := by decide
+example : (binOp .and exS (.ks exT)).toOption.map (·.keys) = some [2] := by decide
+example : (binOp .sub exS (.ks exT)).toOption.map (·.keys) = some [1] := by decide
+example : (binOp .xor exS (.ks exT)).toOption.map (·.keys) = some [1, 3] := by decide
+example : (binOp .or exS (.ks exT)).toOption.map (fun r => (r.enforce, r.cfg.typed)) = some (true, true) := by decide
+-- enforce: an unequal item under key 1 is refused, a wrong-typed one too
+example : (match add exS (1, 6) with | .error e => some e | .ok _ => none) = some Err.valueError := by decide
+example : (match add exS (4, 100) with | .error e => some e | .ok _ => none) = some Err.typeError := by decide
+example : (match add exS (11, 0) with | .error e => some e | .ok _ => none) = some Err.typeError := by decide
+
+/-- the documented ambiguity: ints keyed by `x / 10`, every int usable as a key -/
+def ambCfg : Cfg Nat Nat :=
+  { keyOf := fun x => .ok (x / 10), asKey := fun x => some x, hashable := fun _ => true,
+    typed := false, okItem := fun _ => true, okKey := fun _ => true }
+def ambS : KS Nat Nat := ⟨ambCfg, false, [(0, 1), (1, 10)]⟩
+/-- `1` is at once the present key 1 and an item of the present key 0 … -/
+example : ¬ Unamb ambS 1 := by
+  intro h
+  have := h 1 0 (Or.inl ⟨rfl, by decide⟩) (Or.inr ⟨rfl, by decide, fun he => by simp [ambS] at he⟩)
+  cases this
+/-- … and `pop()` returns item `1` but removes the binding of key 1 (the model mirrors the code). -/
+example : (pop ambS).toOption.map (fun r => (r.1, r.2.dict)) = some (1, [(0, 1)]) := by decide
+
+end Examples
+
 end SpecVerif.Props.C14
